@@ -985,6 +985,17 @@ class AbsInt:
                 res = None
                 if self.decide_call:
                     res = self.decide_call(name, argvals, t)
+                if res is None and len(argvals) == 2 and name.endswith(('PartialEq>::eq', 'PartialEq::eq', 'PartialEq>::ne', 'PartialEq::ne')):
+                    # comparison of two known field-less enum values (derived PartialEq compares the discriminants)
+                    ab = []
+                    for a_ in argvals:
+                        for _ in range(4):
+                            if a_[0] == 'ref' and a_[1] in env:
+                                a_ = env[a_[1]]
+                        ab.append(a_)
+                    if ab[0][0] == 'enum' and ab[1][0] == 'enum' and ab[0][1] == ab[1][1]:
+                        eq_ = ab[0][2] == ab[1][2]
+                        res = ('int', int(eq_ != name.endswith('ne')), 'bool')
                 if res is None and name.endswith('Try>::branch') and argvals and argvals[0][0] == 'agg' and \
                         argvals[0][1] in ('core::result::Result', 'core::option::Option') and argvals[0][2] in ('Ok', 'Err', 'Some', 'None'):
                     a0 = argvals[0]
